@@ -236,7 +236,20 @@ REDUCTIONS = {"sum", "any", "all", "max", "min", "mean", "count_nonzero", "prod"
 VALUE_PRESERVING = {"array", "asarray", "asanyarray", "tuple", "list", "asnumpy", "ascontiguousarray", "copy"}
 CONSTANT_ARRAYS = {"ones", "zeros", "empty", "full"}
 LIKE_ARRAYS = {"ones_like", "zeros_like", "empty_like", "full_like"}
+SAFE_ON_COORD = {"abs", "absolute", "square", "sqrt", "arctan2", "hypot", "power", "abs2", "less", "greater",
+                 "less_equal", "greater_equal", "isnan", "isfinite"}  # the result is a function of the frequency itself
+UNMODELLED_SOURCES = {"linspace", "indices", "mgrid", "ogrid", "fromfunction", "geomspace", "logspace", "rfftfreq",
+                      "tile", "repeat", "eye", "identity", "frombuffer", "fromiter", "loadtxt", "load"}
 INDEX_LISTS = {"label_to_index"}  # package contract: index arrays into the (flattened) image handed in
+
+
+class _Lit(ast.expr):
+    """An argument that is already evaluated (an element of an unpacked sequence)."""
+    _fields = ()
+
+    def __init__(self, val):
+        super().__init__()
+        self.val = val
 
 
 def _last(name: Optional[str]) -> str:
@@ -382,10 +395,18 @@ class Interp:
             return Unknown(f"{fr.f.qualname}: item assignment into a sequence")
         if isinstance(v, Unknown):
             return v
+        if base.coord:
+            return Unknown(f"{fr.f.qualname}: elements of a coordinate vector are overwritten")
         idx = t.slice
         elts = list(idx.elts) if isinstance(idx, ast.Tuple) else [idx]
         full = all((isinstance(e, ast.Slice) and e.lower is None and e.upper is None and e.step is None)
                    or (isinstance(e, ast.Constant) and e.value is Ellipsis) for e in elts)
+        if full:  # the whole content is replaced
+            if isinstance(v, Arr) and not v.masked and len(v.axes) <= len(base.axes):
+                return Arr((None,) * (len(base.axes) - len(v.axes)) + tuple(v.axes))
+            if isinstance(v, (Sc, Bool)):
+                return Arr((None,) * len(base.axes))
+            return Unknown(f"{fr.f.qualname}: cannot read what `{norm_text(t)[:40]}` is overwritten with")
         parts = [base]
         if not full:
             if len(elts) != 1:
@@ -487,6 +508,7 @@ class Interp:
         if any(a.masked for a in arrs) and any(len(a.axes) != nd for a in arrs):
             return Unknown(f"{fr.f.qualname}: mask selections of arrays of different rank")
         out: list = [None] * nd
+        raw: list = [False] * nd
         for a in arrs:
             off = nd - len(a.axes)
             for i, x in enumerate(a.axes):
@@ -494,8 +516,12 @@ class Interp:
                     continue
                 cur = out[off + i]
                 if cur is None:
-                    out[off + i] = x
+                    out[off + i], raw[off + i] = x, a.coord
                 elif not same_ax(cur, x):
+                    if a.coord or raw[off + i]:
+                        # coordinate vectors themselves may be combined to build another coordinate: not judged
+                        return Unknown(f"{fr.f.qualname}: `{norm_text(node)[:50]}` combines coordinate vectors in "
+                                       "different arrangements")
                     self.conflicts.append((fr.f.qualname, node, cur, x))
         return Arr(tuple(out), False, any(a.masked for a in arrs))
 
@@ -522,23 +548,31 @@ class Interp:
     def _coord_scalar(self, op, arr: Arr, s: Sc, swapped: bool, node, fr: Frame) -> Val:
         if not arr.coord:
             return arr
-        ax = arr.axes[0]
+        pos = [i for i, x in enumerate(arr.axes) if x is not None]
+        ax = arr.axes[pos[0]]
         q = fr.f.qualname
+
+        def put(new_ax: Ax) -> Arr:
+            return Arr(tuple(new_ax if i == pos[0] else None for i in range(len(arr.axes))), True)
+
         if isinstance(op, ast.Mult):
-            return Arr((replace(ax, step=None if (ax.step is None or s.rat is None) else ax.step * s.rat),), True)
+            return put(replace(ax, step=None if (ax.step is None or s.rat is None) else ax.step * s.rat))
         if isinstance(op, ast.Div) and not swapped:
             ok = ax.step is not None and s.rat is not None and not s.rat.is_zero()
-            return Arr((replace(ax, step=(ax.step / s.rat) if ok else None),), True)
+            return put(replace(ax, step=(ax.step / s.rat) if ok else None))
         if isinstance(op, (ast.Add, ast.Sub)):
             if swapped and isinstance(op, ast.Sub):
                 return Unknown(f"{q}: reversed coordinate `{norm_text(node)[:50]}`")
             one = Rat(Poly.const(1))
-            if ax.kind != "ramp" or ax.step is None or ax.step != one or s.lin is None or not is_integer(s.lin, ROLES) \
+            if ax.kind != "ramp" or ax.step is None or ax.step != one or s.lin is None or not _only_sizes(s.lin) \
                     or not ax.roll.is_zero():
                 return Unknown(f"{q}: translated coordinate `{norm_text(node)[:50]}` is outside the language")
             c = ax.c + s.lin if isinstance(op, ast.Sub) else ax.c - s.lin
-            return Arr((replace(ax, c=c, events=ax.events + ("explicit centred vector",)),), True)
-        return replace(arr, coord=False)  # a function of the coordinate
+            return put(replace(ax, c=c, events=ax.events + ("explicit centred vector",)))
+        if isinstance(op, ast.Pow) and not swapped:
+            return replace(arr, coord=False)  # a function of the coordinate
+        # anything else (%, //, &, ...) may re-map the values of the vector to other frequencies
+        return Unknown(f"{q}: `{norm_text(node)[:50]}` re-maps a coordinate vector: outside the language")
 
     def shift(self, x: Val, sign: int, axes_expr, node: ast.Call, env, fr: Frame, what: str) -> Val:
         if isinstance(x, (Unknown, Sc, Bool)):
@@ -596,7 +630,7 @@ class Interp:
                 continue
             if s.lin is not None and _only_sizes(s.lin) and is_integer(s.lin, ROLES):
                 out[i] = replace(a, roll=a.roll + s.lin, events=a.events + ("roll by a multiple of the size",))
-            elif s.deps - {SIZE}:
+            elif s.deps - {SIZE} and SIZE not in s.deps:
                 # a displacement that is not derived from the grid size alone: the detector offset (decided by
                 # R-OFFSETPIX); it moves the detector, not the frequency origin of the pattern
                 self.notes.append(f"{fr.f.qualname}: roll by a displacement depending on {sorted(s.deps - {SIZE})} "
@@ -608,6 +642,8 @@ class Interp:
     # ---- expressions
     def ev(self, e: ast.AST, env: dict, fr: Frame) -> Val:
         q = fr.f.qualname
+        if isinstance(e, _Lit):
+            return e.val
         if isinstance(e, ast.Constant):
             if isinstance(e.value, bool):
                 return Bool(e.value)
@@ -752,7 +788,7 @@ class Interp:
             else:
                 return Unknown(f"{q}: cannot read the index of `{norm_text(e)[:40]}`")
         out += src
-        return Arr(tuple(out), base.coord and len(out) == 1 and out[0] is not None)
+        return Arr(tuple(out), base.coord and sum(1 for x in out if x is not None) == 1)
 
     def element(self, it: ast.AST, env: dict, fr: Frame) -> Val:
         """Value of one element when iterating over `it` (collections of like arrays collapse)."""
@@ -818,6 +854,21 @@ class Interp:
         q = fr.f.qualname
         name = call_name(c)
         last = _last(name) if name else (c.func.attr if isinstance(c.func, ast.Attribute) else "")
+        if any(isinstance(a, ast.Starred) for a in c.args) and not any(k.arg is None for k in c.keywords):
+            flat: Optional[list] = []
+            for a in c.args:
+                if isinstance(a, ast.Starred):
+                    v = self.ev(a.value, env, fr)
+                    if not isinstance(v, Seq):
+                        flat = None
+                        break
+                    flat += [_Lit(x) for x in v.items]
+                else:
+                    flat.append(a)
+            if flat is not None:
+                c2 = ast.Call(func=c.func, args=flat, keywords=c.keywords)
+                ast.copy_location(c2, c)
+                return self.call(c2, env, fr)
         if any(isinstance(a, ast.Starred) for a in c.args) or any(k.arg is None for k in c.keywords):
             vals = [self.ev(a.value if isinstance(a, ast.Starred) else a, env, fr) for a in c.args] + \
                    [self.ev(k.value, env, fr) for k in c.keywords]
@@ -840,7 +891,11 @@ class Interp:
                 return Sc()
             if isinstance(recv, Arr):
                 if m in ELEMENTWISE_METHODS:
-                    return recv if m in ("astype", "copy", "get", "view") else replace(recv, coord=False)
+                    if m in ("astype", "copy", "get", "view"):
+                        return recv
+                    if recv.coord:
+                        return Unknown(f"{q}: method `{m}` of a coordinate vector is outside the language")
+                    return recv
                 if m in REDUCTIONS and "axis" not in kws and not args:
                     return Sc()
                 if m in ("transpose",) and not args and not kws and not recv.masked:
@@ -914,6 +969,18 @@ class Interp:
                 return Unknown(f"{q}: arange over a range that is not the size of a pattern axis")
             c0 = -start
             return Arr((Ax(k, "ramp", c0, Lin(), Rat(Poly.const(1)), ("explicit vector",)),), True)
+        if last == "meshgrid" and args and all(isinstance(a, Arr) and a.coord and len(a.axes) == 1 for a in args):
+            ij = isinstance(kwx.get("indexing"), ast.Constant) and kwx["indexing"].value == "ij"
+            if set(kwx) - {"indexing"} or ("indexing" in kwx and not isinstance(kwx["indexing"], ast.Constant)):
+                return Unknown(f"{q}: `{norm_text(c)[:50]}` is outside the language")
+            nd = len(args)
+            order = list(range(nd))
+            if not ij and nd >= 2:
+                order[0], order[1] = 1, 0
+            return Seq(tuple(Arr(tuple(a.axes[0] if j == order[i] else None for j in range(nd)), True)
+                             for i, a in enumerate(args)))
+        if last in UNMODELLED_SOURCES:
+            return Unknown(f"{q}: array built by `{last}` is outside the language")
         if last in CONSTANT_ARRAYS:
             shp = args[0] if args else kws.get("shape", Sc())
             if isinstance(shp, Seq):
@@ -955,6 +1022,8 @@ class Interp:
                     return Unknown(f"{q}: `{norm_text(c)[:50]}` combines a sequence of arrays")
                 if len(arrs) == 1 and last in VALUE_PRESERVING | {"astype", "float32", "float64"}:
                     return arrs[0]
+                if any(a.coord for a in arrs) and last not in SAFE_ON_COORD:
+                    return Unknown(f"{q}: `{last}` may re-map a coordinate vector: outside the language")
                 return self.merge(arrs, c, fr)
             if last in REDUCTIONS and "axis" not in kws and len(args) == 1:
                 return Sc()
